@@ -141,7 +141,8 @@ class Election:
     def postCheck(self):
         "post-election sanity check"
         nElected = len(self.elected)
-        nEligible = len(self.C.eligible())
+        nEligible = len([c for c in self.C.eligible()
+                         if not (self.rule.defeats_undeclared and c.isUndeclared)])
         assert(nElected == self.nSeats or
                nElected < self.nSeats and nElected == nEligible)
 
